@@ -61,6 +61,7 @@ def build_corpus(tier, seed):
         real = corpus.sample(corpus.real_blocks(), 300, seed)
         rc = corpus.sample(rc, 500, seed)
         chain = []
+        pairs, _ = gen.enumerate_blocks(gen.rule_vocab(gen.C3), [["S", "T", "B", "O"], ["T", "U", "O"]], 3)
     else:
         rb, r1 = gen.enumerate_blocks(gen.rule_vocab(gen.C9), gen.RULE_SHAPES_BASIC, 3)
         rc, r2 = gen.enumerate_blocks(gen.rule_vocab(gen.C5), gen.RULE_SHAPES_CTX, 3)
@@ -78,6 +79,9 @@ def build_corpus(tier, seed):
                 b, r = gen.enumerate_blocks(v, [["*"] * (depth - 1)], 6, simulate=(n // 3, depth), seed=seed + depth)
                 sim += b
         real = corpus.real_blocks()
+        pairs = []
+    groups["Xpair"] = [{"cmd": "opt", "text": t} for t in pairs]
+    gstats["rule_pairs"] = len(pairs)
     gstats.update({"rule_basic": len(rb), "rule_ctx": len(rc), "rule_chain": len(chain), "sim": len(sim), "real": len(real),
                    "hand": len(hand)})
     groups["Xrule"] = [{"cmd": "opt", "text": t} for t in rb + rc]
@@ -101,7 +105,8 @@ def plan(tier, groups, seed):
                 cmds += corpus.sample(groups["R"], 40, seed + i)
             else:
                 cmds += groups["Xrule"] if i < 2 else corpus.sample(groups["Xrule"], 400, seed + i)
-                cmds += groups["Xvoc"] if i == 0 else corpus.sample(groups["Xvoc"], 300, seed + i)
+                cmds += corpus.sample(groups["Xvoc"], 1500, seed) if i == 0 else corpus.sample(groups["Xvoc"], 300, seed + i)
+                cmds += groups["Xpair"] if i == 0 else corpus.sample(groups["Xpair"], 300, seed + i)
                 cmds += groups["S"]
                 cmds += groups["R"]
             jobs.append((name, argv, [dict(c) for c in cmds]))
